@@ -893,7 +893,7 @@ func writeEvidence(chk *Check, tier string, seed int, t0 time.Time, results []ca
 	}
 	fns := make([]string, 0, len(fnSet))
 	for f := range fnSet {
-		if strings.Contains(f, vm.RepoModule) && !strings.Contains(f, "zzvrt") {
+		if strings.Contains(f, vm.RepoModule) && !strings.Contains(f, "zzvrt") && !isHarnessFunc(f) && !strings.Contains(f, ".zz") && !strings.Contains(f, "$") {
 			fns = append(fns, strings.ReplaceAll(f, vm.RepoModule+"/", ""))
 		}
 	}
@@ -935,7 +935,8 @@ func writeEvidence(chk *Check, tier string, seed int, t0 time.Time, results []ca
 		cov["truncated_cases"] = append(truncated[:40], fmt.Sprintf("... and %d more", len(truncated)-40))
 	}
 	cov["functions_encoded"] = fns
-	cov["functions_encoded_count"] = len(fnSet)
+	cov["functions_encoded_count"] = len(fns)
+	cov["functions_executed_including_library_and_harness"] = len(fnSet)
 	cov["bounds"] = chk.Bounds[tier]
 	cov["outside_claim"] = chk.Outside
 	cov["stubs"] = chk.Stubs
